@@ -63,7 +63,7 @@ class _WatchedSolver:
     def check(self, *a):
         import threading
 
-        if self.guarded and not a and not os.environ.get("VERIF_NO_GUARD"):
+        if self.guarded and not a and os.environ.get("VERIF_FORK_GUARD") == "1":
             pre = self._precheck_in_child()
             if pre not in ("sat", "unsat"):
                 return z3.unknown
